@@ -99,17 +99,28 @@ fn case(rep: &mut Report, seed: u64, index: u64) {
     }
     if rep.has_caselog() {
         // DOM-level: the blob both file formats store for the Attributes property
-        let (bin_hex, xml_text) = if index % 4 == 0 {
-            let dom = WeakDom::new(InstanceBuilder::new("DataModel").with_child(InstanceBuilder::new("Folder").with_name("holder").with_property("Attributes", a.clone())));
+        // three instances of one class: a longer map before the map under test and an empty one after it,
+        // so that anything a writer carries over from one instance's blob to the next becomes visible
+        let (bin_hex, xml_text, file_blobs) = if index % 4 == 0 {
+            let mut pre = a.clone();
+            pre.insert("zzzz-pad".into(), Variant::BinaryString(vec![0xA5u8; 64 + (index % 7) as usize].into()));
+            let mut pre_bytes = Vec::new();
+            let _ = pre.to_writer(&mut pre_bytes);
+            let dom = WeakDom::new(
+                InstanceBuilder::new("DataModel")
+                    .with_child(InstanceBuilder::new("Folder").with_name("pre").with_property("Attributes", pre))
+                    .with_child(InstanceBuilder::new("Folder").with_name("holder").with_property("Attributes", a.clone()))
+                    .with_child(InstanceBuilder::new("Folder").with_name("post").with_property("Attributes", Attributes::new())),
+            );
             let roots = dom.root().children().to_vec();
             let b = crate::rt::write_binary(&dom, &roots, rbx_binary::CompressionType::None).ok();
             let x = crate::rt::write_xml(&dom, &roots, crate::expect::XmlMode::Default).ok().and_then(|v| String::from_utf8(v).ok());
-            (b.map(|b| canon::hex(&b)), x)
+            (b.map(|b| canon::hex(&b)), x, json!({"pre": canon::hex(&pre_bytes), "holder": canon::hex(&bytes), "post": ""}))
         } else {
-            (None, None)
+            (None, None, J::Null)
         };
         rep.log_case(&json!({"kind": "attrs", "seed": seed, "index": index, "blob_hex": canon::hex(&bytes), "source": src, "expected": exp,
-                             "bin_hex": bin_hex, "xml_text": xml_text}));
+                             "bin_hex": bin_hex, "xml_text": xml_text, "file_blobs": file_blobs}));
     }
 }
 
